@@ -320,6 +320,9 @@ pub enum ByOp {
     Clone(usize),
     Drop(usize),
     Density(usize, Fb),
+    /// k short-lived objects of the given law are constructed and dropped ("how many other distribution
+    /// objects exist": counters, stamps and tables that grow with every construction)
+    Flood(String, usize),
 }
 
 #[derive(Clone, Debug, Serialize, Deserialize, PartialEq)]
@@ -614,7 +617,15 @@ impl Prop for C18 {
                 steps.push(Step::CloneSelf);
                 continue;
             }
-            steps.push(Step::Compare { seed: Hx(r.next()), k: 8 + r.below(57) as usize, bystanders: gen_bystanders(&mut r) });
+            let mut bys = gen_bystanders(&mut r);
+            if r.chance(0.03) {
+                // many other objects of the subject's own law come and go, then one of them (with other
+                // parameters) is built and queried right before the subject is looked at again
+                let k = if r.chance(0.8) { 65_530 + r.below(7) as usize } else { *r.pick(&[250usize, 253, 254, 255, 256, 1000]) };
+                let other = gen_vector(&mut r, law, &default_params(law), 0);
+                bys = vec![ByOp::Flood(law.to_string(), k), ByOp::New(law.to_string(), fbs(&other)), ByOp::Density(0, Fb(0.5)), ByOp::Density(0, Fb(1.0))];
+            }
+            steps.push(Step::Compare { seed: Hx(r.next()), k: 8 + r.below(57) as usize, bystanders: bys });
         }
         let seeding = Seeding::gen(&mut r);
         let mut script = vec![];
@@ -751,7 +762,7 @@ impl Prop for C18 {
         let mut v: Vec<String> = [
             "step.nonfinite", "step.default_ctor", "step.set.valid", "step.set.invalid", "step.update.valid", "step.update.invalid",
             "step.new.valid", "step.new.invalid", "step.clone", "step.compare", "outcome.rejected",
-            "outcome.accepted", "by.New", "by.Set", "by.Update", "by.Clone", "by.Drop", "by.Density",
+            "outcome.accepted", "by.New", "by.Set", "by.Update", "by.Clone", "by.Drop", "by.Density", "by.Flood",
             "fault.reject", "fault.partial", "resync.after_partial", "compare.fresh_thread", "compare.bulk", "compare.successor_same_storage", "config.fill_policy_active",
         ]
         .iter()
@@ -992,6 +1003,15 @@ fn exec_history(case: &Case, st: &mut Stats) -> Option<Viol> {
                                 let _ = catch(|| o.density(x.0));
                             }
                             "Density"
+                        }
+                        ByOp::Flood(l, k) => {
+                            let dp = default_params(l);
+                            for _ in 0..(*k).min(70_000) {
+                                if catch(|| Obj::new(l, &dp)).is_err() {
+                                    break;
+                                }
+                            }
+                            "Flood"
                         }
                     };
                     st.inc(&format!("by.{}", name));
